@@ -1,2 +1,87 @@
-From V.Lib Require Import Bytes.
-From V.Model Require Import CookieStore Jar.
+(* C10 - a saved session is what the next request loads, across any save history.
+   Only statements and `exact`; the lemmas live in Proofs/. *)
+From V.Lib Require Import Bytes Base64 NetAddr.
+From V.Gen Require Import Consts.
+From V.Model Require Import Signed Cookies CookieStore Jar.
+From V.Proofs Require Import SignedProofs CookieStoreProofs.
+Open Scope Z_scope.
+
+(* Whatever the configuration, request host and signed value: the cookies emitted for a session
+   concatenate (in order) to the signed value, each serialises to at most maxCookieLength <= 4096
+   bytes (maxCookieLength regenerated from the source), all parts carry the attributes of the
+   unsplit cookie, and they are either the single cookie under the configured name or numbered
+   name_0 .. name_{n-1}. *)
+Theorem c10_parts : forall cfg host signed parts,
+  make_session_cookie cfg host signed = Some parts ->
+  let c := make_cookie cfg host (c_name cfg) signed (c_expire_ns cfg) in
+  concat (map sc_value parts) = signed /\
+  Forall (fun p => cookie_len p <= max_cookie_length) parts /\
+  Forall (fun p => attrs_string p = attrs_string c) parts /\
+  (parts = [c] \/ map sc_name parts = map (split_cookie_name (c_name cfg)) (seq 0 (length parts))).
+Proof. exact make_session_cookie_spec. Qed.
+Print Assumptions c10_parts.
+
+Theorem c10_limit_le_4096 : max_cookie_length <= 4096.
+Proof. exact max_cookie_length_le_4096. Qed.
+Print Assumptions c10_limit_le_4096.
+
+(* The split loop terminates with a result whenever a numbered name plus the attributes alone stay
+   below the limit (observation O2: otherwise the Go loop cannot make progress either). *)
+Theorem c10_split_progress : forall fuel c base count rest,
+  (length rest <= fuel)%nat ->
+  (forall k, zlen (split_cookie_name base k) + 1 + attrs_len c < max_cookie_length) ->
+  split_loop fuel c base count rest <> None.
+Proof. exact split_loop_progress. Qed.
+Print Assumptions c10_split_progress.
+
+(* Save then Load, for every configuration with a valid cookie name, every non-empty value of any
+   size, every earlier cookie set `cs` the request presented: the response is deletions followed
+   by the new cookies, and every request that presents exactly the new cookies (what a browser jar
+   holds after applying the response) loads exactly the saved value and timestamp. *)
+Theorem c10_load_after_save : forall (mac : str -> str), (forall m, is_bytes (mac m)) ->
+  forall cfg host cs value created hdrs,
+  zlen (c_name cfg) <= split_name_limit ->
+  value <> [] -> is_bytes value -> ts_ok created = true ->
+  store_save mac cfg host cs value created = Some hdrs ->
+  exists dels parts,
+    hdrs = dels ++ parts /\
+    make_session_cookie cfg host (signed_value mac (c_name cfg) value created) = Some parts /\
+    Forall (fun d => sc_maxage d < 0 /\ sc_value d = []) dels /\
+    forall cs' now,
+      presents (c_name cfg) parts cs' ->
+      in_window created now (c_expire_ns cfg) = true ->
+      store_load mac cfg cs' now = Some (value, created).
+Proof. exact store_load_after_save. Qed.
+Print Assumptions c10_load_after_save.
+
+(* Clear: every presented cookie belonging to the session (the name itself, name_<digits>, or a
+   truncated numbered name) is deleted under its own name, with the configured path and the
+   selected domain. *)
+Theorem c10_clear_complete : forall cfg host cs already n v,
+  In (n, v) cs -> is_session_name (c_name cfg) n = true ->
+  exists d, In d (store_clear cfg host cs already) /\ sc_name d = n /\ sc_maxage d < 0.
+Proof. exact store_clear_complete. Qed.
+Print Assumptions c10_clear_complete.
+
+Theorem c10_clear_only_deletes : forall cfg host cs already,
+  Forall (fun d => sc_maxage d < 0 /\ sc_value d = [] /\ sc_path d = c_path cfg /\
+                   sc_domain d = select_domain host (c_domains cfg))
+         (store_clear cfg host cs already).
+Proof. exact store_clear_deletes. Qed.
+Print Assumptions c10_clear_only_deletes.
+
+(* non-vacuity: a 3100-byte value under the default name really is split in two parts, and the
+   request presenting those two parts loads it back *)
+Definition ex_cfg : ccfg :=
+  {| c_name := s "_oauth2_proxy"; c_path := s "/"; c_domains := []; c_secure := true;
+     c_httponly := true; c_samesite := 1%N; c_expire_ns := 3600000000000 |}.
+Definition ex_mac (m : str) : str := repeat 7%N 32.
+Definition ex_value : str := repeat 65%N (Z.to_nat 3100).
+Example c10_nonvacuous :
+  match store_save ex_mac ex_cfg (s "app.example.com") [] ex_value 1790000000 with
+  | Some [p0; p1] =>
+      store_load ex_mac ex_cfg [(sc_name p0, sc_value p0); (sc_name p1, sc_value p1)] 1790000100000000000
+      = Some (ex_value, 1790000000)
+  | _ => False
+  end.
+Proof. vm_compute. reflexivity. Qed.
